@@ -179,6 +179,11 @@ pub fn exec(actor: &mut Actor, rc: &RunCtx, step: &Value) {
         call.insert("rpar".into(), json!(hex16(rc.rpar(geti("h")))));
     }
     shared().acc.lock().unwrap().insert(t, Acc::default());
+    let pause = shared().op_sleep_us.load(std::sync::atomic::Ordering::Relaxed);
+    if pause > 0 {
+        // make intervals long enough that a wrong time cannot hide in the tolerances (C18)
+        std::thread::sleep(std::time::Duration::from_micros(pause));
+    }
     call.insert("m".into(), json!(mono_us()));
     call.insert("w".into(), json!(wall_us()));
     emit(Value::Object(call.clone()));
@@ -198,6 +203,9 @@ pub fn exec(actor: &mut Actor, rc: &RunCtx, step: &Value) {
     }
     // ---- return event: the call's arguments, the results, what the hooks saw
     let mut ret = call;
+    let (m0, w0) = (ret["m"].clone(), ret["w"].clone());
+    ret.insert("m0".into(), m0);
+    ret.insert("w0".into(), w0);
     ret.insert("ev".into(), json!("ret"));
     for (k, v) in out {
         ret.insert(k, v);
